@@ -99,3 +99,11 @@ Theorem C04_exec_spec_sound_n :
   (forall ops o, inner_n_okb ops o = true <-> inner_n_ok ops o).
 Proof. exact (conj outer_n_okb_spec inner_n_okb_spec). Qed.
 Print Assumptions C04_exec_spec_sound_n.
+
+(* ---- tuples as containers inside the split value (Model: tvalue/tflatten/tshape_rec/tsplit1): flatten opens
+   lists and tuples, input_shape only lists; a one-field splitter over a list whose inner containers are any mix
+   of lists and tuples still runs exactly the elements at depth n (both kinds opened), depth first *)
+Theorem C04_full_tuples :
+  forall (n : nat) (l : list tvalue), 1 <= n -> tsplit1 n l = Jobs (telements n (TList l)).
+Proof. exact tsplit1_full. Qed.
+Print Assumptions C04_full_tuples.
